@@ -113,10 +113,19 @@ func init() {
 		append(hitRows("c", "x", 1), map[string]any{"id": "miss", "p": "y", "k": "other"}),
 	}
 	setupSmall := buildFixture("small", small)
+	// one file of 8 one-row blocks (a partition each): more end-of-scan deliveries than the
+	// cursor buffers (4 batches) plus the concurrency budget
+	var many []map[string]any
+	for i := 0; i < 7; i++ {
+		many = append(many, map[string]any{"id": fmt.Sprintf("m%d", i), "p": fmt.Sprintf("p%d", i), "k": "hit"})
+	}
+	many = append(many, map[string]any{"id": "miss", "p": "q", "k": "other"})
+	setupMany := buildFixture("manysmall", [][]map[string]any{many})
+	fixtureHits["manysmall"] = 7
 	Registry["C22"] = func(tier string) []Scenario {
-		ps := []c22p{{1, 2, false, "small"}, {2, 2, false, "small"}, {1, 1, true, "wide"}}
+		ps := []c22p{{1, 2, false, "small"}, {2, 2, false, "small"}, {1, 1, true, "wide"}, {1, 1, true, "manysmall"}, {2, 1, true, "manysmall"}}
 		if tier == "thorough" {
-			ps = append(ps, c22p{2, 3, false, "small"}, c22p{1, 3, false, "small"}, c22p{2, 2, true, "wide"}, c22p{1, 2, true, "wide"})
+			ps = append(ps, c22p{2, 3, false, "small"}, c22p{1, 3, false, "small"}, c22p{2, 2, true, "wide"}, c22p{1, 2, true, "wide"}, c22p{3, 2, true, "manysmall"}, c22p{2, 2, false, "manysmall"})
 		}
 		var out []Scenario
 		for _, p := range ps {
@@ -124,6 +133,10 @@ func init() {
 			s.Setup = setupSmall
 			if p.fixture == "wide" {
 				s.Setup = setupWide
+				s.Sched = 1
+			}
+			if p.fixture == "manysmall" {
+				s.Setup = setupMany
 				s.Sched = 1
 			}
 			if tier == "thorough" && p.fixture == "small" && p.queries == 2 {
